@@ -155,8 +155,24 @@ func TestVerifC40Bounded(t *testing.T) {
 	evals := 0
 	fails := map[string]int{}
 	var samples []string
+	seen := map[string]bool{}
+	distinct := 0
 	run := func(seq []c40iv, lo, hi int) {
 		evals++
+		if k := c40seq(seq); !seen[k] {
+			seen[k] = true
+			overlap := false
+			for i, a := range seq {
+				for _, b := range seq[:i] {
+					if a.a <= b.b && b.a <= a.b {
+						overlap = true
+					}
+				}
+			}
+			if overlap { // non-trivial: some insertion has to split or merge with an earlier interval
+				distinct++
+			}
+		}
 		if evals%4001 == 5 && len(samples) < 3 {
 			samples = append(samples, c40seq(seq))
 		}
@@ -214,5 +230,5 @@ func TestVerifC40Bounded(t *testing.T) {
 	for len(samples) < 3 {
 		samples = append(samples, "")
 	}
-	fmt.Printf("BOUNDED: {\"evaluations\":%d,\"distinct\":%d,\"rule\":\"every insertion sequence of length <=%d of intervals [a,b] with 0<=a<=b<%d (%d exhaustive), plus %d seeded random sequences of length 4..12 over widths 8..19: after each insertion Entries() sorted and pairwise disjoint, Get(p).Value == indices of the inserted intervals containing p in insertion order for every p in the domain +-1, Insert's result == disjoint from all earlier intervals; at the end Nesting.Sets() partitions the inserted intervals and any two in one set are disjoint or one is a strict subset of the other\",\"exhaustive\":true,\"bound\":\"len<=%d, endpoints<%d; random part is sampled\",\"samples\":[%q,%q,%q]}\n", evals, evals, maxLen, dom, exh, nr, maxLen, dom, samples[0], samples[1], samples[2])
+	fmt.Printf("BOUNDED: {\"evaluations\":%d,\"distinct\":%d,\"rule\":\"every insertion sequence of length <=%d of intervals [a,b] with 0<=a<=b<%d (%d exhaustive), plus %d seeded random sequences of length 4..12 over widths 8..19: after each insertion Entries() sorted and pairwise disjoint, Get(p).Value == indices of the inserted intervals containing p in insertion order for every p in the domain +-1, Insert's result == disjoint from all earlier intervals; at the end Nesting.Sets() partitions the inserted intervals and any two in one set are disjoint or one is a strict subset of the other; distinct_nontrivial counts the distinct sequences in which at least two intervals overlap\",\"exhaustive\":true,\"bound\":\"len<=%d, endpoints<%d; random part is sampled\",\"samples\":[%q,%q,%q]}\n", evals, distinct, maxLen, dom, exh, nr, maxLen, dom, samples[0], samples[1], samples[2])
 }
